@@ -56,7 +56,7 @@ def units(tier, seed):
             u.append({'k': 'enum', 'shape': list(sh), 'maxl': maxl})
     for i in range(20 if tier == 'quick' else 1500):
         u.append({'k': 'rand', 'i': i})
-    for i in range(24 if tier == 'quick' else 360):
+    for i in range(40 if tier == 'quick' else 400):
         u.append({'k': 'xdev', 'i': i})
     for i in range(36 if tier == 'quick' else 360):
         u.append({'k': 'pairs', 'i': i})
@@ -77,7 +77,7 @@ def dir_paths(shape):
     return paths
 
 
-def build(root, shape, links, ignore):
+def build(root, shape, links, ignore, prefix_names=False):
     """links: [(location index, target index)], ignore: None | ('link', k) |
     ('above', k).  Returns the list of link paths."""
     paths = dir_paths(shape)
@@ -88,6 +88,12 @@ def build(root, shape, links, ignore):
     lpaths = []
     for k, (loc, tgt) in enumerate(links):
         lp = (paths[loc] + '/' if paths[loc] else '') + 'ln%d' % k
+        if prefix_names and tgt != 0 and os.path.dirname(paths[tgt]) == paths[loc]:
+            # a link next to its target whose name merely extends the target's name
+            # (lib64 -> lib)
+            lp = paths[tgt] + '64'
+            if os.path.lexists(os.path.join(root, lp)):
+                lp = paths[tgt] + '64-%d' % k
         rel = os.path.relpath(os.path.join(root, paths[tgt]) if paths[tgt] else root,
                               os.path.join(root, paths[loc]) if paths[loc] else root)
         os.symlink(rel, os.path.join(root, lp))
@@ -245,7 +251,8 @@ def exec_loop_case(ctx, case):
         root = os.path.join(d, 't')
         paths, lpaths, ignores = build(root, case['shape'],
                                        [tuple(x) for x in case['links']],
-                                       tuple(case['ignore']) if case['ignore'] else None)
+                                       tuple(case['ignore']) if case['ignore'] else None,
+                                       prefix_names=bool(case.get('prefix_names')))
         loop, files, nd = explore(root, set(ignores))
         write_manifest(root, files, ignores)
         judge_loop(ctx, root, case, ignores)
@@ -267,6 +274,7 @@ def run_enum(u, ctx):
                 case = {'kind': 'loop', 'shape': shape,
                         'links': [list(x) for x in links],
                         'ignore': list(ign) if ign else None,
+                        'prefix_names': k % 2 == 1,
                         'wseed': (k * 7919 + ctx.seed) % (1 << 30)}
                 exec_loop_case(ctx, case)
                 k += 1
@@ -284,7 +292,7 @@ def run_rand(u, ctx):
     ign = rng.choice([None, ['link', rng.randrange(len(links))],
                       ['above', rng.randrange(len(links))]])
     case = {'kind': 'loop', 'shape': shape, 'links': links, 'ignore': ign,
-            'wseed': rng.randrange(1 << 30)}
+            'prefix_names': rng.random() < 0.5, 'wseed': rng.randrange(1 << 30)}
     exec_loop_case(ctx, case)
     ctx.sample(case, 'rand')
 
@@ -309,6 +317,15 @@ def exec_xdev(ctx, case):
         extra = []
         if case['what'] == 'dir':
             os.symlink(ext, os.path.join(root, lp))
+        elif case['what'] in ('leafdir', 'leaffiles'):
+            # a foreign directory without sub-directories: empty, or holding only
+            # files nobody lists
+            leaf = os.path.join(ext, 'leaf')
+            os.makedirs(leaf)
+            if case['what'] == 'leaffiles':
+                with open(os.path.join(leaf, 'unknown'), 'w') as f:
+                    f.write('u')
+            os.symlink(leaf, os.path.join(root, lp))
         elif case['what'] == 'manifest':
             # a sub-Manifest that is a symlink to a file on the other file system
             # (with a matching MANIFEST entry when 'listed')
@@ -444,8 +461,9 @@ def run_xdev(u, ctx):
     shape = [rng.randrange(i) for i in range(1, n + 1)]
     i = u['i']
     case = {'kind': 'xdev', 'shape': shape, 'loc': rng.randrange(n + 1),
-            'what': ['dir', 'file', 'manifest'][i % 3], 'listed': bool((i // 3) % 2),
-            'ignored': bool((i // 6) % 2), 'wseed': rng.randrange(1 << 30)}
+            'what': ['dir', 'file', 'manifest', 'leafdir', 'leaffiles'][i % 5],
+            'listed': bool((i // 5) % 2),
+            'ignored': bool((i // 10) % 2), 'wseed': rng.randrange(1 << 30)}
     exec_xdev(ctx, case)
     ctx.sample(case, 'xdev')
 
